@@ -2676,4 +2676,35 @@ theorem phantomLoop_facts (p : TVD) (pc : Nat) (l : List (TV × Int))
     rw [h1]
     exact ih (fun x hx => hdel x (by simp [hx])) (fun x hx => hm x (by simp [hx])) ph1 h2
 
+/-! ## support for the statements and examples of Props/C01HandVar.lean -/
+
+/-- number of `Ok` headers in a trace -/
+def okHeaders (evs : List (Out (Option Hdr))) : Nat := ((items evs).filter (·.isSome)).length
+
+/-- a cvar table with one tuple (embedded peak, private points "all", two byte deltas) -/
+def exCvar : List Nat := [0, 1, 0, 0, 0, 1, 0, 14, 0, 4, 0xA0, 0, 0x40, 0, 0, 1, 5, 6]
+
+def exCvarWalk : Option (List (List Int × List (Nat × Int × Int))) :=
+  match cvarVariationData exCvar 1 with
+  | .ok p => (tvTrace p).map (fun evs => (items evs).map (fun t =>
+      ((t.peak p).getD [], ((t.deltasTrace p false).map items).getD [])))
+  | _ => none
+
+/-- a one-glyph gvar (long offsets, one axis, one shared tuple): the glyph's tuple refers to shared
+tuple 0 and carries deltas for "all points" -/
+def exGvar : List Nat :=
+  [0, 1, 0, 0, 0, 1, 0, 1, 0, 0, 0, 28, 0, 1, 0, 1, 0, 0, 0, 30,
+   0, 0, 0, 0, 0, 0, 0, 12,
+   0x40, 0,
+   0, 1, 0, 8, 0, 4, 0, 0, 0, 1, 1, 3]
+
+def exGvarWalk : Option (List (List Int × List (Nat × Int × Int))) :=
+  match gvarRead exGvar with
+  | none => none
+  | some g =>
+    match g.glyphVariationData 0 with
+    | .ok (some p) => (tvTrace p).map (fun evs => (items evs).map (fun t =>
+        ((t.peak p).getD [], ((t.deltasTrace p true).map items).getD [])))
+    | _ => none
+
 end FontVerif.C01HandVar
